@@ -154,7 +154,9 @@ func taskArgs(c *cli.Context) []string {
 	var dash = -1
 	for k, arg := range c.Args().Slice() {
 		if arg == "--" {
+			// everything after the first "--" belongs to the tasks, later "--" included
 			dash = k
+			break
 		}
 	}
 
